@@ -21,6 +21,14 @@ def step (st : St) (ws : List String) : St × String :=
     match k.toNat?, v.toNat? with
     | some k, some v => (.pq (q.insert k v), "-")
     | _, _ => (st, "bad-op")
+  | ["setepoch", e], .pq q =>
+    match e.toNat? with
+    | some e => (.pq { q with nextEpoch := max q.nextEpoch e }, "-")
+    | none => (st, "bad-op")
+  | ["setepoch", e], .ipq q h =>
+    match e.toNat? with
+    | some e => (.ipq { q with nextEpoch := max q.nextEpoch e } { h with nextEpoch := max h.nextEpoch e }, "-")
+    | none => (st, "bad-op")
   | ["pull"], .pq q => let (q', r) := q.pull; (.pq q', showKV r)
   | ["peek"], .pq q => (st, showKV q.peek)
   -- the keyed queue: the mid-level model answers, the transliterated heap (M-HEAP) runs next to it and must agree
